@@ -334,6 +334,14 @@ def run_trace(ctx, rows, bait, trace):
 
     ia = IndexedAssembly("x", scaffolds=[build_scaffold(["s", rows])])
     b = Fragment("s", bait[2], bait[3], bait[4], tuple(bait[5]))
+    if (bait[3] + len(rows)) % 5 == 0:
+        # another scaffold of the same name is offered and refused: results born afterwards are still those of
+        # the scaffold the assembly has
+        other = [["F", "zz", 1, 3 + len(rows), 1, []], *[list(x) for x in reversed(rows)]]
+        try:
+            ia.add_scaffold(build_scaffold(["s", other]))
+        except ValueError:
+            ctx.count("direct:lookup-after-a-refused-scaffold-of-the-same-name")
     try:
         r = ia.find_overlaps(b)
     except Exception:  # noqa: BLE001 - C12's business
@@ -449,6 +457,7 @@ def plan(tier, seed):
 def gates(c, tier):
     need = {
         "tracked-objects": 1000,
+        "direct:lookup-after-a-refused-scaffold-of-the-same-name": 1000,
         "direct:result-born-from-an-edited-scaffold-indexed-again": 1000,
         "premise-figures-checked:start": 200,
         "premise-figures-checked:end": 200,
